@@ -37,6 +37,11 @@ def generate(rng):
             op['async'] = (rng.random() < 0.6) if mixed else True
             if op.get('to', -1) is None and rng.random() < 0.5:
                 op['to'] = 0.03
+            if op['async'] and rng.random() < 0.15:
+                # the caller abandons the call from outside (its own wait_for / task.cancel())
+                op['cancel_after'] = rng.choice([0.0002, 0.001, 0.004, 0.02])
+                if rng.random() < 0.5:
+                    op['to'] = None
         if op['op'] == 'gap':
             op['async'] = rng.random() < 0.7
         ops.append(op)
@@ -95,7 +100,26 @@ def run(scn, clauses=None):
                     coro = child.expect_list(pl, timeout=to, searchwindowsize=sws, async_=True)
                 else:
                     coro = child.expect(pl, timeout=to, searchwindowsize=sws, async_=True)
-                res = await coro
+                if op.get('cancel_after') is not None:
+                    try:
+                        res = await asyncio.wait_for(coro, op['cancel_after'])
+                    except asyncio.TimeoutError:
+                        # cancellation tie: if the future had already completed when the caller's own timer fired,
+                        # asyncio drops the result; the engine did match (or see EOF), so judge it as that outcome
+                        apt = getattr(child, 'async_pw_transport', None)
+                        fut = apt[0].fut if apt else None
+                        oc = ('cancel', None)
+                        if fut is not None and fut.done() and not fut.cancelled():
+                            oc = ('exc', fut.exception()) if fut.exception() is not None else ('ret', fut.result())
+                            r.w.probe('cancellation_tie')
+                        r.snap_call('exact' if exact else 'list', pl, to, sws, c0, t0, oc, True)
+                        rec['out'] = 'cancel'
+                        rec['t1'] = w.now
+                        r.ops.append(rec)
+                        r.w.probe('awaited_call_cancelled_from_outside')
+                        return rec
+                else:
+                    res = await coro
                 r.snap_call('exact' if exact else 'list', pl, to, sws, c0, t0, ('ret', res), True)
                 rec['out'] = 'ret'
             except (EOF, TIMEOUT) as e:
